@@ -997,6 +997,50 @@ def asarray(x, dtype=None):
     raise Unsupported(f"asarray({type(x).__name__})")
 
 
+class _UFunc2:
+    """A binary ufunc of the numpy namespace: callable element-wise, with .accumulate / .reduce over a 1-D array."""
+
+    def __init__(self, name, f):
+        self.name, self.f = name, f
+
+    def __get__(self, obj, cls=None):
+        return self if obj is None else _BoundUFunc2(obj, self)
+
+
+class _BoundUFunc2:
+    def __init__(self, ns, uf):
+        self.ns, self.uf = ns, uf
+        self.__name__ = uf.name
+
+    def __call__(self, a, b, out=None, **kw):
+        if kw:
+            raise Unsupported(f"np.{self.uf.name} with {sorted(kw)}")
+        return _into(out, self.ns._ew2(a, b, self.uf.f))
+
+    def _flat(self, a, axis):
+        a = asarray(a)
+        if not isinstance(a, SymArray) or a.ndim != 1 or axis not in (0, -1, None):
+            raise Unsupported(f"np.{self.uf.name}.accumulate / reduce on other than a 1-d array")
+        return a
+
+    def accumulate(self, a, axis=0, dtype=None, out=None):
+        a = self._flat(a, axis)
+        acc, cur = [], None
+        for x in a.d:
+            cur = _chk(x) if cur is None else self.uf.f(cur, _chk(x))
+            acc.append(cur)
+        return _into(out, SymArray(acc, a.dtype_tag))
+
+    def reduce(self, a, axis=0, dtype=None, out=None, **kw):
+        a = self._flat(a, axis)
+        if not a.d:
+            raise ValueError(f"zero-size array to reduction operation {self.uf.name} which has no identity")
+        cur = _chk(a.d[0])
+        for x in a.d[1:]:
+            cur = self.uf.f(cur, _chk(x))
+        return cur
+
+
 def _retag(a, tag):
     a.dtype_tag = tag
     if a.ndim == 2:
@@ -1604,11 +1648,8 @@ class NP:
 
     amax, amin = max, min
 
-    def minimum(self, a, b, out=None):
-        return _into(out, self._ew2(a, b, s_min))
-
-    def maximum(self, a, b, out=None):
-        return _into(out, self._ew2(a, b, s_max))
+    minimum = _UFunc2("minimum", lambda x, y: s_min(x, y))
+    maximum = _UFunc2("maximum", lambda x, y: s_max(x, y))
 
     def _ew2(self, a, b, f):
         a = asarray(a) if not _is_scalar(a) else a
